@@ -82,6 +82,17 @@ class CsvDataFile():
         return self.data
 
 
+def _ends_with_closing_quote(t, escapechar):
+    '''True when t ends with a quote that is not escaped, i.e. that is
+    preceded by an even number of escape characters.'''
+    if len(t) == 0 or t[-1] != '"':
+        return False
+    k = len(t) - 2
+    while k >= 0 and t[k] == escapechar:
+        k -= 1
+    return (len(t) - 2 - k) % 2 == 0
+
+
 def merge_escape_parts(parts, separator, escapechar):
     try:
         merged_parts = []
@@ -94,9 +105,9 @@ def merge_escape_parts(parts, separator, escapechar):
                     agg.append('"')
                     merged_parts.append(separator.join(agg))
                     agg = None
-            elif len(t) > 0 and t[0] == '"' and t[-1] == '"' and t[-2] != escapechar and agg is None:
+            elif len(t) > 0 and t[0] == '"' and _ends_with_closing_quote(t, escapechar) and agg is None:
                 merged_parts.append(t)
-            elif len(t) > 0 and t[-1] == '"' and t[-2] != escapechar and agg is not None:
+            elif _ends_with_closing_quote(t, escapechar) and agg is not None:
                 agg.append(t)
                 merged_parts.append(separator.join(agg))
                 agg = None
